@@ -19,13 +19,13 @@ import coverage  # noqa: E402
 
 
 def measure(props, n):
-    from detsim import lib  # noqa: F401
-    import check as checkmod
-    from detsim import core
     repo = os.environ.get('VERIF_REPO', '/repo')
-    cov = coverage.Coverage(data_file=None, include=[os.path.join(repo, 'pytoniq_core', '*')], branch=True)
+    cov = coverage.Coverage(data_file=None, include=[os.path.join(repo, 'pytoniq_core', '*')], branch=False)
     cov.start()
     try:
+        from detsim import lib  # noqa: F401   (the library is imported under measurement, so def lines count as run)
+        import check as checkmod
+        from detsim import core
         for prop in props:
             world = checkmod.make_world(prop, 'quick')
             for leg, total in world.get_legs():
